@@ -146,7 +146,7 @@ fn verdict(p: V3, lon: f64, lat: f64, res: i32, t: &Tally, class: &str, tier_nam
 }
 
 fn check_exhaustive(src: &super::c01::Src, res: i32, st: &mut Stats) -> Result<(), String> {
-    let (lon, lat, class) = src.lonlat()?;
+    let (lon, lat, class) = src.with_res(res).lonlat()?;
     let p = vec_of_lonlat(lon, lat);
     let rings = all_rings(res).as_ref().map_err(|e| e.clone())?;
     let t = judge(p, rings.iter())?;
@@ -154,7 +154,7 @@ fn check_exhaustive(src: &super::c01::Src, res: i32, st: &mut Stats) -> Result<(
 }
 
 fn check_neighbourhood(src: &super::c01::Src, res: i32, st: &mut Stats) -> Result<(), String> {
-    let (lon, lat, class) = src.lonlat()?;
+    let (lon, lat, class) = src.with_res(res).lonlat()?;
     let p = vec_of_lonlat(lon, lat);
     let size = contain::cell_size(res);
     let mut ids: BTreeSet<u64> = BTreeSet::new();
